@@ -9,6 +9,7 @@ import (
 	"errors"
 	"fmt"
 	"hash/fnv"
+	"os"
 	"runtime"
 	"sort"
 	"strings"
@@ -132,6 +133,9 @@ type fakeDA struct {
 	blobs    map[string][]byte
 	injPoint string
 	injErr   error
+	// sameHeight (concurrent part only): a submission lands on the current height and is visible to GetIDs at once,
+	// so that what a retrieval returns depends on the order in which the DA saw the calls.
+	sameHeight bool
 }
 
 func newFakeDA() *fakeDA {
@@ -265,6 +269,9 @@ func (d *fakeDA) SubmitWithOptions(ctx context.Context, blobs []coreda.Blob, _ f
 		return nil, err
 	}
 	height := d.cur + 1
+	if d.sameHeight {
+		height = d.cur
+	}
 	ids := make([]coreda.ID, 0, n)
 	for _, b := range blobs[:n] {
 		id := mkID(height, b)
@@ -455,9 +462,10 @@ func (a action) String() string {
 }
 
 type replay struct {
-	Backing string   `json:"backing"`
-	Pre     string   `json:"pre"`
-	Actions []action `json:"actions"`
+	Backing string      `json:"backing,omitempty"`
+	Pre     string      `json:"pre,omitempty"`
+	Actions []action    `json:"actions,omitempty"`
+	Conc    *concReplay `json:"concurrent,omitempty"` // set: a history of the concurrent part (concurrent_test.go)
 }
 
 func sizeLists(maxLen int) [][]int {
@@ -886,6 +894,10 @@ func hash64(s string) uint64 {
 
 func TestCheck(t *testing.T) {
 	r := vf.Start("C16", "exploration")
+	if out := os.Getenv("VERIF_C16_CONC_OUT"); out != "" { // a shard process of the concurrent part
+		concChild(t, r.Thorough(), out)
+		return
+	}
 	depth := vf.Pick(r, 2, 3)
 	acts, nCore := alphabet(r.Thorough())
 	r.Assume = []string{
@@ -895,6 +907,9 @@ func TestCheck(t *testing.T) {
 		"client MaxBlobSize equals the backing DA's limit",
 		"server, client and node helpers keep no state between calls other than the backing store, the HTTP connection pool and the request counter: histories are merged when store contents and the status of the last call agree",
 		"messages and timestamps of DA results are not compared",
+		"concurrent part: another caller of the shared client can run at every log call of the client and of the server (the injected logger), between marshalling a request and handing it to the server (HTTP round trip) and at the entry of the DA; client.go/server.go are not preempted between two such points (da/jsonrpc is built with the lock shim: a caller waiting for a sync.Mutex/RWMutex of that package is parked until the lock is free instead of stalling the scheduler), the DA operation itself is atomic",
+		"concurrent part: the HTTP layer is an in-memory http.RoundTripper that calls the real server's http.Handler on the caller's goroutine (real network goroutines never reach the quiescence the cooperative scheduler needs); client and server are built by the real NewClient/NewServer, go-jsonrpc's package-level default http.Client is re-routed for the hosts of this part only; loopback TCP stays covered by the sequential part",
+		"concurrent part: the in-process reference is the same caller programs run directly on an identically prepared DA double with its DA calls forced into the order the DA behind the proxy observed; fault-free calls only, delay-bounded interleavings (bound stated in bounds.concurrent)",
 	}
 	workers := runtime.NumCPU()
 	started := time.Now()
@@ -904,6 +919,20 @@ func TestCheck(t *testing.T) {
 		var rp replay
 		if _, err := r.LoadReplay(&rp); err != nil {
 			r.EngineError(err.Error())
+		} else if rp.Conc != nil {
+			c := explore.ReplayOne(rp.Conc.Choices, func(c *explore.Ctx) {
+				o := concBody(t, c, rp.Conc.Programs, rp.Conc.Warm)
+				if o.engine != "" {
+					r.EngineError(o.engine)
+				}
+				for _, v := range o.viols {
+					v.Cost, v.History = c.Cost(), rp
+					r.Report(v)
+				}
+			})
+			if c.Diverged != "" {
+				r.EngineError("nondeterminism (concurrent part): " + c.Diverged)
+			}
 		} else if g, err := newRig(rp.Backing); err != nil {
 			r.EngineError(err.Error())
 		} else {
@@ -921,7 +950,7 @@ func TestCheck(t *testing.T) {
 		return
 	}
 
-	var histories, calls, submitCalls, affected atomic.Int64
+	var histories, calls, submitCalls, affected, seqSamples atomic.Int64
 	var mu sync.Mutex
 	distinct := map[uint64]struct{}{}
 	states := map[uint64]struct{}{}
@@ -930,7 +959,15 @@ func TestCheck(t *testing.T) {
 	perRun := map[string]any{}
 	exhaustive := true
 
-	for _, kind := range []string{"fake", "dummyda"} {
+	kinds := []string{"fake", "dummyda"}
+	only := os.Getenv("VERIF_C16_PART") // development aid: "seq" | "conc"; a partial run is reported as capped
+	if only == "conc" {
+		kinds = nil
+	}
+	if only != "" {
+		caps = append(caps, "development run of part "+only+" only")
+	}
+	for _, kind := range kinds {
 		pool := make(chan *rig, workers)
 		var rigs []*rig
 		for i := 0; i < workers; i++ {
@@ -1012,7 +1049,7 @@ func TestCheck(t *testing.T) {
 						break
 					}
 				}
-				if len(hist) <= 2 && (lastA.Inj != "" || len(lastA.Sizes) == 3) && histories.Load()%97 == 0 {
+				if len(hist) <= 2 && (lastA.Inj != "" || len(lastA.Sizes) == 3) && histories.Load()%97 == 0 && seqSamples.Add(1) <= 4 {
 					r.Sample(map[string]any{"backing": kind, "pre": pre, "history": res.trace, "last_status_direct/proxied": res.lastCode, "state_after": res.key})
 				}
 				if res.hard || hist[len(hist)-1] >= nCore {
@@ -1033,23 +1070,55 @@ func TestCheck(t *testing.T) {
 		}
 	}
 
+	// concurrent part (concurrent_test.go): callers sharing one client, every interleaving within the delay bound
+	var cr concResult
+	if only != "seq" {
+		cr = concPartSharded(t, r)
+	}
+	for i, v := range cr.Viols {
+		for n := 0; n < cr.ViolCounts[i]; n++ {
+			r.Report(v)
+		}
+	}
+	for _, e := range cr.Engine {
+		r.EngineError("concurrent part: " + e)
+	}
+	for _, o := range cr.Outcomes {
+		r.Outcome(o)
+	}
+	for _, sm := range cr.Samples {
+		r.Sample(sm)
+	}
+	caps = append(caps, cr.Caps...)
+	concLins := map[uint64]struct{}{}
+	for _, h := range cr.Lins {
+		concLins[h] = struct{}{}
+	}
+
 	pairList := make([]string, 0, len(pairs))
 	for k, n := range pairs {
 		pairList = append(pairList, fmt.Sprintf("%s (%d histories)", k, n))
 	}
 	sort.Strings(pairList)
 	r.Finish(vf.Coverage{
-		Evaluations: histories.Load(), DistinctNontrivial: int64(len(distinct)), States: int64(len(states)), Transitions: calls.Load(),
-		Rule: "every history of at most `depth` calls whose non-final calls come from the core alphabet and whose final call ranges over the whole alphabet " +
+		Evaluations: histories.Load() + cr.Execs, DistinctNontrivial: int64(len(distinct) + len(concLins)), States: int64(len(states)), Transitions: calls.Load() + cr.DACalls,
+		Rule: "SEQUENTIAL PART: every history of at most `depth` calls whose non-final calls come from the core alphabet and whose final call ranges over the whole alphabet " +
 			"(SubmitWithHelpers with every blob list of length <=3 over sizes {0,1,limit-1,limit,limit+1} x {no fault, each injected backing error, caller context already cancelled}; " +
 			"RetrieveWithHelpers at heights 0..4 (empty, populated, future in both pre-states) x {no fault, each injected error at GetIDs, at Get, cancelled context}; one DA block passes), " +
 			"from the empty and the populated pre-state, on the error-injecting double and (fault-free calls only) on core/da DummyDA; each history is executed on a direct instance and on an identically prepared " +
 			"instance behind a real jsonrpc server+client on loopback, followed by a read-back of every newly written height through both paths; " +
 			"histories are merged when backing store and status of the last call agree; evaluations = histories executed, transitions = helper calls made, " +
-			"distinct = distinct (backing, pre-state, store before the last call, status of the previous call, last call) tuples, states = distinct backing stores reached",
+			"distinct = distinct (backing, pre-state, store before the last call, status of the previous call, last call) tuples, states = distinct backing stores reached. " +
+			"CONCURRENT PART: for every multiset of `callers` caller programs (1-2 operations each: SubmitWithHelpers with a batch that fits / is truncated to a prefix / [thorough] has an oversize blob, DA.Submit, RetrieveWithHelpers at the height being written / [thorough] an old / a future height, DA.Get of the ids the caller just got back; every blob content unique to its caller) " +
+			"on ONE real jsonrpc client in front of ONE real server, fresh or [thorough] already used for a completed submission: every interleaving with at most `max_preemptive_switches` preemptions (switching away from a caller that could go on costs 1 per position in the ready list; switching when a caller returns is free) over the scheduling points listed in the assumptions, enumerated by the engine with replay-divergence checking; " +
+			"oracle per interleaving: all callers return; each result (status, submitted count, ids, blobs) equals that of the same program run in-process in the DA call order observed behind the proxy; both stores are equal; behind the proxy the ids handed to a caller hold exactly the first `count` blobs of that caller and the number of stored blobs equals the sum of the reported counts; " +
+			"evaluations = sequential histories + interleavings executed, transitions = helper calls + DA calls behind the proxy, distinct additionally counts distinct (workload, DA call order) pairs",
 		Exhaustive: exhaustive && len(caps) == 0, Caps: caps,
 		Bounds: map[string]any{"depth": depth, "alphabet": len(acts), "core_alphabet": nCore, "blob_size_limit": limit, "blob_sizes": blobSizes, "max_list_len": 3,
-			"retrieve_heights": retrieveHeights, "injected_error_kinds": len(errKinds), "pre_states": []string{"empty", "populated"}, "backings": []string{"fake(error-injecting double)", "core/da.DummyDA"}, "runs": perRun},
-		Extra: map[string]any{"submit_histories": submitCalls.Load(), "histories_with_only_the_classified_status_degradation": affected.Load(), "submit_status_pairs_by_injected_error": pairList},
+			"retrieve_heights": retrieveHeights, "injected_error_kinds": len(errKinds), "pre_states": []string{"empty", "populated"}, "backings": []string{"fake(error-injecting double)", "core/da.DummyDA"}, "runs": perRun, "concurrent": cr.Bounds},
+		Extra: map[string]any{"sequential_histories": histories.Load(), "concurrent_interleavings_executed": cr.Execs, "concurrent_interleavings_with_overlapping_calls": cr.Overlap,
+			"concurrent_workloads": cr.Workloads, "concurrent_distinct_(workload, DA call order)": len(concLins), "concurrent_scheduling_decisions": cr.Points, "concurrent_max_decisions_in_one_interleaving": cr.MaxDepth,
+			"concurrent_DA_calls_behind_the_proxy": cr.DACalls, "concurrent_process_shards": cr.Shards,
+			"submit_histories": submitCalls.Load(), "histories_with_only_the_classified_status_degradation": affected.Load(), "submit_status_pairs_by_injected_error": pairList},
 	})
 }
